@@ -173,7 +173,18 @@ func ListEnded(rec *Recorder, before int) (string, bool) {
 	if rec.MatcherErr {
 		return "merr", true
 	}
-	return "full", true
+	// "buffer full" is only recorded when the matching limit was really reached; a list that simply
+	// came back gets no Abort event (clause R5b then judges the silent return)
+	pulled := 0
+	for _, e := range rec.Hist {
+		if e["e"] == "Pull" {
+			pulled += e["n"].(int)
+		}
+	}
+	if pulled >= layer4.MaxMatchingBytes {
+		return "full", true
+	}
+	return "", false
 }
 
 // association ids of the "udp" handler kind
